@@ -495,13 +495,23 @@ def search(ctx):
             break
         dst = 255 if not H.is_pdu1(pgn) else 17
         payload = P.payload(pgn, 0.1)
-        for trial in range(ctx.n(6, 40)):
+        # every shape once (first frame with 0..2 bytes after the length byte; continuation frames 1..2 with 0..1 bytes after
+        # the counter byte; first-then-continuation, continuation-then-first, continuation twice), then random ones
+        shapes = []
+        for e0 in (0, 1, 2):
+            for fc in (1, 2):
+                for e1 in (0, 1):
+                    first, cont = (0, e0), (fc, e1)
+                    shapes += [[first, cont], [cont, first], [first, cont, cont], [cont, cont]]
+        shapes += [[(0, 0)], [(1, 0)], [(0, 0), (0, 1)]]
+        for trial in range(len(shapes) + ctx.n(6, 40)):
             gs = rng.randrange(8)
             garbage = []
-            for _ in range(rng.randint(1, 4)):
-                fc = rng.choice([0, 0, 1, 1, 2, 3])
+            spec = shapes[trial] if trial < len(shapes) else [(rng.choice([0, 0, 1, 1, 2, 3]), rng.choice([0, 0, 1, 2]))
+                                                              for _ in range(rng.randint(1, 4))]
+            for fc, extra in spec:
                 body = bytes([(gs << 5) | fc]) + (bytes([rng.choice([9, 20, 30])]) if fc == 0 else b"") + \
-                    bytes(rng.getrandbits(8) for _ in range(rng.choice([0, 0, 1, 2])))
+                    bytes(rng.getrandbits(8) for _ in range(extra))
                 garbage.append((H.mk_pkt(pgn, 5, dst, 3, body, len(body)), False))
             probe = [(H.mk_pkt(pgn, 5, dst, 3, (f + bytes([0xFF] * 8))[:8], 8), False)
                      for f in H.fast_frames(payload, (gs + 1 + rng.randrange(7)) % 8)]
